@@ -59,8 +59,10 @@ type LintConfig struct {
 
 // Lint lints file
 func Lint(stream io.Reader, lc LintConfig) error {
+	errorsFound := 0
 	err := parser.ParseStreamCallback(stream, lc.ParserConfig, func(node *shared.ParserNode, err error) (stop bool, cbError error) {
 		if err != nil {
+			errorsFound++
 			fmt.Fprintln(lc.ReporterConfig.Output, err)
 		}
 		return false, nil
@@ -68,7 +70,7 @@ func Lint(stream io.Reader, lc LintConfig) error {
 	if err != nil {
 		return err
 	}
-	if !lc.Silent {
+	if !lc.Silent && errorsFound == 0 {
 		fmt.Fprintln(lc.ReporterConfig.Output, "No errors found")
 	}
 	return nil
